@@ -38,6 +38,10 @@ pub struct CWorld {
     pub conns: Arc<Mutex<Vec<Arc<Mutex<ConnLog>>>>>,
     /// per connection: notify to make the server drop it (the client sees the transport end)
     pub kills: Arc<Mutex<Vec<Arc<tokio::sync::Notify>>>>,
+    /// the next n dials are refused (connect error)
+    pub refuse_dials: Arc<std::sync::atomic::AtomicUsize>,
+    /// the next n dialled connections are dropped by the server before the TLS handshake
+    pub drop_before_handshake: Arc<std::sync::atomic::AtomicUsize>,
     old: Option<anytls_rs::verif::Dialer>,
 }
 
@@ -64,8 +68,25 @@ impl CWorld {
         let kills: Arc<Mutex<Vec<Arc<tokio::sync::Notify>>>> = Arc::new(Mutex::new(vec![]));
         let c2 = conns.clone();
         let k2 = kills.clone();
+        let refuse_dials = Arc::new(std::sync::atomic::AtomicUsize::new(0));
+        let drop_before_handshake = Arc::new(std::sync::atomic::AtomicUsize::new(0));
+        let (rd, dh) = (refuse_dials.clone(), drop_before_handshake.clone());
         let dialer: anytls_rs::verif::Dialer = Rc::new(move |_addr: &str| {
+            use std::sync::atomic::Ordering::SeqCst;
+            if rd.load(SeqCst) > 0 {
+                rd.fetch_sub(1, SeqCst);
+                return Some(Err(std::io::Error::new(std::io::ErrorKind::ConnectionRefused, "connection refused (scripted)")));
+            }
             let (a, b) = tokio::io::duplex(1 << 20);
+            if dh.load(SeqCst) > 0 {
+                dh.fetch_sub(1, SeqCst);
+                // accepted and dropped at once: the client's TLS handshake sees the end of the transport
+                drop(b);
+                let log = Arc::new(Mutex::new(ConnLog { eof: true, ..Default::default() }));
+                c2.lock().unwrap().push(log);
+                k2.lock().unwrap().push(Arc::new(tokio::sync::Notify::new()));
+                return Some(Ok(Box::new(a) as Box<dyn anytls_rs::verif::VerifIo>));
+            }
             let log = Arc::new(Mutex::new(ConnLog::default()));
             c2.lock().unwrap().push(log.clone());
             let kill = Arc::new(tokio::sync::Notify::new());
@@ -82,7 +103,7 @@ impl CWorld {
         });
         let old = anytls_rs::verif::install_dialer(Some(dialer));
         let client = Arc::new(Client::with_pool_config("pw", "in-memory:1".to_string(), ServerName::try_from("localhost").unwrap(), connector(), padding, pool));
-        CWorld { client, conns, kills, old }
+        CWorld { client, conns, kills, refuse_dials, drop_before_handshake, old }
     }
 
     /// The server drops connection `i` (abruptly, as seen from the client: end of the transport).
